@@ -1,6 +1,8 @@
 package rules
 
 import (
+	"go/ast"
+	"go/token"
 	"go/types"
 	"sort"
 	"strings"
@@ -398,6 +400,9 @@ func checkMutableGlobals(c *Ctx, f *FC) {
 		why, known := mutableGlobals[name]
 		if known {
 			r.OK("C07.e2", name, "inventoried", "fc", why)
+		} else if readOnlyTable(f, v) {
+			delete(isMut, v)
+			r.OK("C07.e2", name, "read-only-table", c.Pos(f.M.Fset, v.Pos()), "a lookup table: initialised by a composite literal and only indexed, ranged over or measured afterwards (never assigned, never an operand of delete/append, never passed on or aliased): nothing can be stored in it")
 		} else {
 			r.Undecided("C07.e2", name, "inventoried", c.Pos(f.M.Fset, v.Pos()), "package-level variable "+name+" of type "+types.TypeString(t, types.RelativeTo(pkg.Types))+" holds shared mutable storage and is not in the inventory: whatever is stored in it (directly or through an alias) survives between definitions and files")
 		}
@@ -509,4 +514,87 @@ func checkTranspileOneForm(c *Ctx, f *FC, rule string) {
 	} else {
 		c.R.Undecided(rule, "transpileOne", "definition", f.M.Dir, "anchor function not found (renamed or removed): "+whyT1)
 	}
+}
+
+// readOnlyTable: v is a package-level map/slice/array initialised by a composite literal whose every occurrence in
+// the package is a read — the operand of an index expression that is not assigned to, of range, or of len.
+func readOnlyTable(f *FC, v *types.Var) bool {
+	pkg := f.M.Main()
+	info := pkg.TypesInfo
+	switch v.Type().Underlying().(type) {
+	case *types.Map, *types.Slice, *types.Array:
+	default:
+		return false
+	}
+	initOK := false
+	ok := true
+	for _, file := range pkg.Syntax {
+		var stack []ast.Node
+		ast.Inspect(file, func(n ast.Node) bool {
+			if n == nil {
+				stack = stack[:len(stack)-1]
+				return true
+			}
+			stack = append(stack, n)
+			id, isID := n.(*ast.Ident)
+			if !isID {
+				return true
+			}
+			if info.Defs[id] == v {
+				// the declaration: var v = T{…}
+				if len(stack) >= 2 {
+					if vs, isVS := stack[len(stack)-2].(*ast.ValueSpec); isVS && len(vs.Values) == len(vs.Names) {
+						for i, nm := range vs.Names {
+							if nm == id {
+								if _, isCL := vs.Values[i].(*ast.CompositeLit); isCL {
+									initOK = true
+								}
+							}
+						}
+					}
+				}
+				return true
+			}
+			if info.Uses[id] != v || len(stack) < 2 {
+				return true
+			}
+			switch p := stack[len(stack)-2].(type) {
+			case *ast.IndexExpr:
+				if p.X != id {
+					ok = false
+					return true
+				}
+				// the index expression must not be assigned to, incremented or have its address taken
+				if len(stack) >= 3 {
+					switch g := stack[len(stack)-3].(type) {
+					case *ast.AssignStmt:
+						for _, l := range g.Lhs {
+							if l == p {
+								ok = false
+							}
+						}
+					case *ast.IncDecStmt:
+						ok = false
+					case *ast.UnaryExpr:
+						if g.Op == token.AND {
+							ok = false
+						}
+					}
+				}
+			case *ast.RangeStmt:
+				if p.X != id {
+					ok = false
+				}
+			case *ast.CallExpr:
+				fid, isF := p.Fun.(*ast.Ident)
+				if !isF || fid.Name != "len" {
+					ok = false
+				}
+			default:
+				ok = false
+			}
+			return true
+		})
+	}
+	return initOK && ok
 }
